@@ -182,22 +182,28 @@ def matchstr(c: Cursor, match: Callable[[str, int], int]) -> str | None:
     return c.textstr[i:p]
 
 
-def matchint(c: Cursor) -> int | None:
-    if (s := matchstr(c, match_int)) is not None:
+def _matchinteger(c: Cursor, match: Callable[[str, int], int]) -> int | None:
+    mark = c.pos
+    if (s := matchstr(c, match)) is None:
+        return None
+    try:
         return int(s)
-    return None
+    except ValueError:
+        # NOTE: more digits than sys.get_int_max_str_digits() is not a match
+        c.goto(mark)
+        return None
+
+
+def matchint(c: Cursor) -> int | None:
+    return _matchinteger(c, match_int)
 
 
 def matchuint(c: Cursor) -> int | None:
-    if (s := matchstr(c, match_uint)) is not None:
-        return int(s)
-    return None
+    return _matchinteger(c, match_uint)
 
 
 def matchsigned(c: Cursor) -> int | None:
-    if (s := matchstr(c, match_int)) is not None:
-        return int(s)
-    return None
+    return _matchinteger(c, match_int)
 
 
 def matchfloat(c: Cursor) -> float | None:
